@@ -3,7 +3,7 @@ import random
 from vlib import tlc, core
 from drivers.antenna_drv import AntennaDriver
 
-OPS = ['Receive', 'AllWaveforms', 'Waveforms', 'IsHit', 'FullWaveform', 'IsHitDuring', 'Clear']
+OPS = ['Receive', 'ReceiveFail', 'AllWaveforms', 'Waveforms', 'IsHit', 'FullWaveform', 'IsHitDuring', 'Clear']
 FINISH = dict(rule='behaviours of AntennaHits.tla (all interleavings of receive / all_waveforms / waveforms / is_hit / '
                    'full_waveform / is_hit_during / make_noise / clear(reset)) executed on a threshold Antenna, on an '
                    'AntennaSystem with a gain-2 one-sample-delay front end (lead-in 0 and 3 dt) and on noisy antennas')
